@@ -71,21 +71,21 @@ theorem pRec_mul_choose_succ (n m : Nat) (u : Int) (hu : 0 ≤ u) :
 section SpecSide
 variable {α : Type} [LT α] [DecidableLT α] [DecidableEq α]
 
-theorem twoUPairs_nil_left (x2 : List α) : twoUPairs ([] : List α) x2 = 0 := rfl
+theorem twoUPairs_nil_left_u (x2 : List α) : twoUPairs ([] : List α) x2 = 0 := rfl
 
-theorem twoUPairs_nil_right (x1 : List α) : twoUPairs x1 ([] : List α) = 0 := by
+theorem twoUPairs_nil_right_u (x1 : List α) : twoUPairs x1 ([] : List α) = 0 := by
   induction x1 with
   | nil => rfl
   | cons a l ih => simp [twoUPairs]
 
-theorem twoUPairs_cons_left (a : α) (p1 p2 : List α) :
+theorem twoUPairs_cons_left_u (a : α) (p1 p2 : List α) :
     twoUPairs (a :: p1) p2 = (p2.map fun b => pairW a b).sum + twoUPairs p1 p2 := by
   simp [twoUPairs]
 
 /-- the head is larger than every member of the second sample: it adds 2 per member -/
 theorem twoUPairs_cons_left_gt (a : α) (p1 p2 : List α) (h : ∀ b ∈ p2, b < a) :
     twoUPairs (a :: p1) p2 = twoUPairs p1 p2 + 2 * p2.length := by
-  rw [twoUPairs_cons_left]
+  rw [twoUPairs_cons_left_u]
   have : (p2.map fun b => pairW a b).sum = 2 * p2.length := by
     induction p2 with
     | nil => rfl
@@ -105,7 +105,7 @@ theorem twoUPairs_cons_right_gt (a : α) (p1 p2 : List α) (h : ∀ x ∈ p1, ¬
   | cons x l ih =>
     have hx := h x (by simp)
     have := ih (fun y hy => h y (by simp [hy]))
-    rw [twoUPairs_cons_left, twoUPairs_cons_left, this]
+    rw [twoUPairs_cons_left_u, twoUPairs_cons_left_u, this]
     simp [pairW, hx.1, hx.2]
 
 omit [LT α] [DecidableLT α] [DecidableEq α] in
@@ -166,7 +166,7 @@ variable {α : Type} [LT α] [DecidableLT α] [DecidableEq α]
 
 theorem cntSpec_zero (pool : List α) (u : Int) :
     cntSpec 0 pool u = if u = 0 then 1 else 0 := by
-  simp only [cntSpec, nullDistOf, splits, List.map_cons, List.map_nil, twoUPairs_nil_left]
+  simp only [cntSpec, nullDistOf, splits, List.map_cons, List.map_nil, twoUPairs_nil_left_u]
   by_cases hu : u = 0
   · simp [hu]
   · simp [hu]
@@ -502,7 +502,7 @@ theorem pUntiedRec_getD (n1 n2 v : Nat) : (pUntiedRec n1 n2).getD v 0 = pRec n1 
   · simp only [Array.getD, Array.size_ofFn, hv, dite_false]
     exact (pRec_eq_zero_of_gt n1 n2 v (by push_cast at hv ⊢; omega)).symm
 
-theorem foldl_add_eq_sum (f : Nat → Rat) (k : Nat) :
+theorem foldl_add_eq_sum_rat (f : Nat → Rat) (k : Nat) :
     (List.range k).foldl (fun acc u => acc + f u) (0 : Rat) = ∑ u ∈ Finset.range k, f u := by
   induction k with
   | zero => simp
@@ -536,7 +536,7 @@ theorem cdfPure_untied (n1 n2 : Nat) (T : List Nat) (hT : Stats.UDist.hasTies T 
       = ∑ v ∈ Finset.range ((twoU / 2).toNat + 1), (pUntiedRec n1 n2).getD v 0 := by
   unfold cdfPure cdfWith
   rw [if_neg (by omega), if_neg (by omega), hT]
-  simp only [Bool.false_eq_true, if_false, foldl_add_eq_sum, pUntiedRec_getD]
+  simp only [Bool.false_eq_true, if_false, foldl_add_eq_sum_rat, pUntiedRec_getD]
   have hui : (twoU / 2).toNat < n1 * n2 := by omega
   by_cases hflip : (twoU / 2).toNat ≥ (n1 * n2 + 1) / 2
   · simp only [hflip, decide_true, if_true]
